@@ -54,6 +54,8 @@ HourClauses(e) ==
                     /\ e.ns[2] = HourStar(Ascending(e.j, e.sol[2], e.sol[3], e.sol[4]), Branch(e.ldp), hb)
                     /\ e.ldp = Pillar(e.j) /\ e.dp = (IF e.hh = 23 THEN (e.ldp + 1) % 60 ELSE e.ldp),
     path     |-> (e.dp >= 0 /\ e.hp >= 0) => Both(e.tw, PathSpirit(hb, db)),
+    (* officer and path spirit of the lunar day an already-queried hour hands out = those of a freshly built day *)
+    dayview  |-> e.fd[1] >= 0 => e.hd = e.fd,
     minorren |-> e.lm > -9 => e.mr = MinorRenHour(e.lm, e.ld, ((e.hh + 1) \div 2))
   ]
 
